@@ -52,6 +52,10 @@ checks = {
    technique="bounded-exhaustive enumeration of DNSKEY RDATA (flags × protocol × algorithm × key lengths/patterns), DS digest types × owner spellings, NSEC3 names × salts × iterations (incl. 65535), NSEC3 interval shapes × hash positions constructed by 160-bit arithmetic × zone membership, fixed and fresh keys through Generate/PrivateKeyString/NewPrivateKey with cross sign/verify, and validity windows × time offsets, each compared with closed-form RFC definitions computed with the standard library",
    text="KeyTag, ToDS, HashName, Match, Cover, key export/import and ValidityPeriod agree with the RFC 4034 App. B / §5.1.4, RFC 5155 §5 and RFC 1982 definitions on every enumerated case (known findings listed separately).",
    note="Trusted: harness/ref/canon. Key material of the fresh-key space is random per run (case set is fixed); VERIF_SEED does not select cases."),
+ "C18": dict(cat="fault_enumeration", eng="E1+E3", ref="§5 C18",
+   technique="exhaustive enumeration of messages (13 shapes incl. ARCOUNT 254..257, 60 KiB and exactly 65535 octets; Compress on/off) × 6 algorithms × validity-window edges, and of faults (every single-bit flip of message and SIG RDATA for messages ≤1-8 KiB and a stated reduced family above, every truncation ≥12, section-count rewrites, wrong key / signer / algorithm) on the real SIG.Sign/SIG.Verify against an independent RFC 2931 model verified with crypto/*",
+   text="Sign succeeds for every message and its output equals Pack(m) ‖ one SIG RR with ARCOUNT+1 whose signature the reference verifies; Verify accepts the untampered buffer exactly inside the window (stable-second protocol) and rejects every enumerated fault without panicking.",
+   note="Trusted: harness/ref/sig0 (own wire walker, RFC 2931 signed data, RFC 3110/6605/8080 key decoding), crypto/*. The 11 octets of the SIG RR's own header are excluded from 'altered' (not covered by RFC 2931)."),
 }
 na_reason = "check not built yet in this session (planned in DESIGN.md §5); not claimed until it runs"
 m = {
